@@ -305,7 +305,112 @@ theorem H_agree_gex (m : Magics) (p X Y k : Nat) (hostKey sig : Bytes)
   all_goals rw [← hc, ← hs]
   all_goals simp
 
+/-- group exchange with the exponentiations spelled out: e = g^x, f = g^y, the client derives f^x and the server e^y;
+    both hash the same pre-image and the same K -/
+theorem H_agree_gex_dh (m : Magics) (p x y : Nat) (hostKey sig : Bytes)
+    (h1 : hostKey.length < 2 ^ 32) (h3 : sig.length < 2 ^ 32)
+    (hp : (mpintBody p).length < 2 ^ 32) (hX : (mpintBody (2 ^ x % p)).length < 2 ^ 32)
+    (hY : (mpintBody (2 ^ y % p)).length < 2 ^ 32) (fc fs : List Field)
+    (hc : gexClient m (31 :: (mpint p ++ mpint 2)) (2 ^ x % p)
+            (33 :: (sshString hostKey ++ mpint (2 ^ y % p) ++ sshString sig)) ((2 ^ y % p) ^ x % p) = some fc)
+    (hs : gexServer m (34 :: (u32 2048 ++ u32 2048 ++ u32 8192)) p (32 :: mpint (2 ^ x % p)) hostKey (2 ^ y % p)
+            ((2 ^ x % p) ^ y % p) = some fs) :
+    fc = fs := by
+  rw [dh_commute 2 x y p] at hs
+  exact H_agree_gex m p _ _ _ hostKey sig h1 h3 hp hX hY fc fs hc hs
+
+/-- non-vacuity (toy group p = 23, g = 5, x = 6, y = 15): both sides accept and produce the same fields -/
+example :
+    dhClient 23 ⟨[1], [2], [3], [4]⟩ (5 ^ 6 % 23) (31 :: (sshString [9] ++ mpint (5 ^ 15 % 23) ++ sshString [7])) ((5 ^ 15 % 23) ^ 6 % 23)
+      = dhServer 23 ⟨[1], [2], [3], [4]⟩ (30 :: mpint (5 ^ 6 % 23)) [9] (5 ^ 15 % 23) ((5 ^ 6 % 23) ^ 15 % 23)
+    ∧ (dhServer 23 ⟨[1], [2], [3], [4]⟩ (30 :: mpint (5 ^ 6 % 23)) [9] (5 ^ 15 % 23) 2).isSome = true := by
+  decide
+
+example : (c25519Client ⟨[], [], [], []⟩ (List.replicate 32 9) (31 :: (sshString [1] ++ sshString (List.replicate 32 2) ++ sshString [])) [5]).isSome = true := by
+  decide
+
 /-! ## invalid peer values are rejected -/
+
+/-- classic DH, both directions: a peer value outside 1 < y < p − 1 never yields a pre-image -/
+theorem dh_out_of_range_rejected (p : Nat) (m : Magics) (X Y : Nat) (hostKey sig : Bytes) (k : Nat)
+    (h1 : hostKey.length < 2 ^ 32) (hY : (mpintBody Y).length < 2 ^ 32) (h3 : sig.length < 2 ^ 32)
+    (hX : (mpintBody X).length < 2 ^ 32) :
+    (dhInRange p Y = false → dhClient p m X (31 :: (sshString hostKey ++ mpint Y ++ sshString sig)) k = none) ∧
+    (dhInRange p X = false → dhServer p m (30 :: mpint X) hostKey Y k = none) := by
+  constructor
+  · intro h; rw [dhClient_marshalled p m X Y hostKey sig k h1 hY h3]; simp [h]
+  · intro h; rw [dhServer_marshalled p m X Y hostKey k hX]; simp [h]
+
+/-- ECDH: a point `unmarshal` does not accept (wrong length, not the uncompressed form, a coordinate ≥ P,
+    (0,0), off the curve — the point at infinity has no accepted encoding) never yields a pre-image -/
+theorem ecdh_invalid_point_rejected (c : Curve) (m : Magics) (qc qs hostKey sig : Bytes) (secret : Nat)
+    (h1 : hostKey.length < 2 ^ 32) (h2 : qs.length < 2 ^ 32) (h3 : sig.length < 2 ^ 32) (h4 : qc.length < 2 ^ 32) :
+    (c.unmarshal qs = none →
+      ecdhClient c m qc (31 :: (sshString hostKey ++ sshString qs ++ sshString sig)) secret = none) ∧
+    (c.unmarshal qc = none → ecdhServer c m (30 :: sshString qc) hostKey qs secret = none) := by
+  constructor
+  · intro h; unfold ecdhClient; rw [parse_str_str_str 31 hostKey qs sig h1 h2 h3]; simp [h]
+  · intro h; unfold ecdhServer; rw [parse_str 30 qc h4]; simp [h]
+
+theorem x25519_wrong_length_rejected (u : Bytes) (h : u.length ≠ 32) : x25519PeerOK u = false := by
+  simp [x25519PeerOK, h]
+
+theorem c25519Client_rejects (m : Magics) (pub qs hostKey sig secret : Bytes)
+    (h1 : hostKey.length < 2 ^ 32) (h2 : qs.length < 2 ^ 32) (h3 : sig.length < 2 ^ 32)
+    (hbad : x25519PeerOK qs = false) :
+    c25519Client m pub (31 :: (sshString hostKey ++ sshString qs ++ sshString sig)) secret = none := by
+  unfold c25519Client
+  rw [parse_str_str_str 31 hostKey qs sig h1 h2 h3]
+  simp [hbad]
+
+/-- the 12-bit coefficients packed in an encapsulation key (3 bytes ↦ 2 coefficients) -/
+def decode12 : Bytes → List Nat
+  | a :: b :: c :: r => (a.toNat + 256 * (b.toNat % 16)) :: (b.toNat / 16 + 16 * c.toNat) :: decode12 r
+  | _ => []
+
+/-- the modulus check is exactly "every coefficient < q" -/
+theorem coeffsOK_iff (l : Bytes) : coeffsOK l = true ↔ ∀ x ∈ decode12 l, x < mlkemQ := by
+  fun_induction coeffsOK l with
+  | case1 a b c r d1 d2 ih =>
+    simp only [decode12, List.mem_cons, Bool.and_eq_true, decide_eq_true_eq, ih]
+    constructor
+    · rintro ⟨⟨h1, h2⟩, h3⟩ x (rfl | rfl | hx)
+      · exact h1
+      · exact h2
+      · exact h3 x hx
+    · intro h
+      exact ⟨⟨h _ (Or.inl rfl), h _ (Or.inr (Or.inl rfl))⟩, fun x hx => h x (Or.inr (Or.inr hx))⟩
+  | case2 l hne =>
+    have : decode12 l = [] := by
+      unfold decode12
+      split
+      · rename_i a b c r; exact absurd rfl (hne a b c r)
+      · rfl
+    simp [this]
+
+/-- ML-KEM, server side: a client value of the wrong length, or whose encapsulation key has a coefficient ≥ q,
+    never yields a pre-image -/
+theorem mlkemServer_rejects_malformed (m : Magics) (qc hostKey hybrid secret : Bytes) (h4 : qc.length < 2 ^ 32)
+    (hbad : qc.length ≠ mlkemEkSize + 32 ∨ mlkemEkOK (qc.take mlkemEkSize) = false) :
+    mlkemServer m (30 :: sshString qc) hostKey hybrid secret = none := by
+  unfold mlkemServer
+  rw [parse_str 30 qc h4]
+  rcases hbad with h | h
+  · simp [h]
+  · simp [h]
+
+/-- ML-KEM, client side: a server value whose length is not ciphertext size + 32 never yields a pre-image
+    (a ciphertext of the right length cannot be malformed: decapsulation rejects implicitly) -/
+theorem mlkemClient_rejects_wrong_length (m : Magics) (hybrid qs hostKey sig secret : Bytes)
+    (h1 : hostKey.length < 2 ^ 32) (h2 : qs.length < 2 ^ 32) (h3 : sig.length < 2 ^ 32)
+    (hbad : qs.length ≠ mlkemCtSize + 32) :
+    mlkemClient m hybrid (31 :: (sshString hostKey ++ sshString qs ++ sshString sig)) secret = none := by
+  unfold mlkemClient
+  rw [parse_str_str_str 31 hostKey qs sig h1 h2 h3]
+  simp [hbad]
+
+example : coeffsOK [0x01, 0x0d, 0x00] = false ∧ coeffsOK [0x00, 0x0d, 0x00] = true := by decide
+example : x25519PeerOK (List.replicate 32 0) = false ∧ x25519PeerOK [1] = false := by decide
 
 /-- curve25519: a wrong-length or low-order peer value never yields a pre-image (server side) -/
 theorem c25519Server_rejects (m : Magics) (qc hostKey pub secret : Bytes) (h4 : qc.length < 2 ^ 32)
@@ -375,6 +480,25 @@ theorem ec_unmarshal_sound (c : Curve) (pt : Bytes) (x y : Nat) (h : c.unmarshal
               refine ⟨by simpa using hl, by simp [ht], by omega, by omega, ?_, hc⟩
               intro ⟨a, b⟩
               exact absurd (hz a) (by simp [b])
+
+/-- the all-zero point (the usual stand-in for infinity) is rejected on every curve -/
+theorem ec_zero_zero_rejected (c : Curve) (pt : Bytes) (h : pt = 4 :: List.replicate (2 * c.byteLen) 0) :
+    c.unmarshal pt = none := by
+  cases hu : c.unmarshal pt with
+  | none => rfl
+  | some xy =>
+    obtain ⟨x, y⟩ := xy
+    have hs := ec_unmarshal_sound c pt x y hu
+    exfalso
+    unfold Curve.unmarshal at hu
+    subst h
+    simp at hu
+    obtain ⟨_, _, _, _, hx, hy⟩ := hu
+    have z : ∀ n, natOfBE (List.replicate n (0 : UInt8)) = 0 := by
+      intro n; induction n with
+      | zero => rfl
+      | succ n ih => rw [List.replicate_succ, natOfBE_cons_zero]; exact ih
+    exact hs.2.2.2.2.1 ⟨hx ▸ z _, hy ▸ z _⟩
 
 /-- ML-KEM: an encapsulation key with a coefficient ≥ q in its first pair is rejected -/
 theorem mlkem_first_coeff_rejected (a b c : UInt8) (rest : Bytes)
